@@ -64,7 +64,7 @@ ASSUMPTIONS = ["A2 (library effect table complete for the APIs evo uses)",
                "main_fig --to_html and main_ipython are outside the "
                "property's command list"]
 FLOORS = {"C17.1": 8, "C17.2": 8, "C17.3": 17, "C17.4": 4, "C17.6": 1,
-          "C17.7": 10, "C17.8": 2, "C17.9": 4}
+          "C17.7": 10, "C17.8": 2, "C17.9": 1}
 
 CHK = "evo.tools.user.check_and_confirm_overwrite"
 CONFIRM = "evo.tools.user.confirm"
@@ -525,7 +525,7 @@ def _warnings_flag(ctx):
     from ..lib import parser_arguments
     hits = [(m, n, o, k) for m, n, o, k in parser_arguments(ctx.prog)
             if "--no_warnings" in (o or [])]
-    ctx.require(len(hits) >= 4, "--no_warnings options of the parsers not "
+    ctx.require(len(hits) >= 1, "--no_warnings options of the parsers not "
                 "found")
     for m, n, o, k in hits:
         act, dfl = k.get("action"), k.get("default")
